@@ -45,6 +45,7 @@ fn simulators_for(property: &str, thorough: bool) -> Vec<Box<dyn Simulator>> {
         "C13" | "C19" | "C02" => vec![Box::new(sims::envsim_driver::EnvSimDriver::new(property, thorough))],
         "C12" => vec![Box::new(sims::iosim_driver::IoSimDriver::new(property))],
         "C10" => vec![Box::new(sims::iosim_driver::IoSimDriver::new(property))],
+        "C18" => vec![Box::new(sims::rgsim_driver::RgSimDriver)],
         _ => vec![],
     }
 }
@@ -200,6 +201,7 @@ fn check(property: &str, tier: &str) {
         wall_s: wall,
         determinism: None,
     });
+    let _ = std::fs::remove_dir_all(format!("/dev/shm/rsbdd-dst-{}", std::process::id()));
     if violation_lines.is_empty() {
         println!("OK property={property} tier={tier} wall={wall:.1}s");
         std::process::exit(0);
